@@ -1,5 +1,5 @@
 from armulator.armv6.arm_exceptions import EndOfInstruction
-from armulator.armv6.bits_ops import add, lowest_set_bit_ref, bit_at
+from armulator.armv6.bits_ops import add, lowest_set_bit_ref, bit_at, bit_count
 from armulator.armv6.opcodes.opcode import Opcode
 
 
@@ -18,7 +18,6 @@ class Stm(Opcode):
                 pass
             else:
                 address = processor.registers.get(self.n)
-                write_count = 0
                 for i in range(15):
                     if bit_at(self.registers, i):
                         if i == self.n and self.wback and i != lowest_set_bit_ref(self.registers):
@@ -26,8 +25,9 @@ class Stm(Opcode):
                         else:
                             processor.mem_a_set(address, 4, processor.registers.get(i))
                         address = add(address, 0b100, 32)
-                        write_count += 1
                 if bit_at(self.registers, 15):
                     processor.mem_a_set(address, 4, processor.registers.get_pc())
                 if self.wback:
-                    processor.registers.set(self.n, add(processor.registers.get(self.n), 4 * write_count, 32))
+                    processor.registers.set(
+                        self.n, add(processor.registers.get(self.n), 4 * bit_count(self.registers, 1, 16), 32)
+                    )
